@@ -145,8 +145,9 @@ def finish(ctx, explanation, trusted_base, level="other"):
     prop = ctx.prop
     for name, measured, floor in ctx.floors:
         if measured < floor:
-            raise AnalysisError("FLOOR", name, f"matched {measured} sites, fewer than the {floor} "
-                                               f"confirmed by hand on the pinned tree (vacuous-pass guard)")
+            # vacuous-pass guard: undecided (exit 2), but findings of the rules that did match are still reported
+            ctx.unknown("FLOOR", name, f"matched {measured} sites, fewer than the {floor} confirmed by hand on the "
+                                       f"pinned tree (vacuous-pass guard)")
     known = [k for k in load_known() if prop in k["properties"]]
     known_open = {k["id"]: k for k in known if k["status"] == "known"}
     findings = [r for r in ctx.results if r["verdict"] == "finding"]
